@@ -1,5 +1,6 @@
 import Clem.Proofs.T2
 import Clem.Proofs.T2Complete
+import Clem.Proofs.T2ParBridge
 
 /-!
 # C11 — Retrieval honours scope, thresholds, caps and documented ranking
@@ -140,7 +141,7 @@ theorem C11_cluster_best (cs : List (Str × α)) (m : Int) (eps : List (Ep α)) 
 /-- Each tier's answer is ranked by `(−cosine, id)`. -/
 theorem C11_rank_sorted (k : Int) (θ : α) (eps : List (Ep α)) :
     (rankByCosine k θ eps).Pairwise (fun a b => keyLe (rankKey a) (rankKey b) = true) :=
-  pySlice_pairwise k (isort_key_pairwise rankKey _)
+  pySlice_pairwise k ((isort_key_pairwise rankKey _).sublist (dedupIds_sublist _))
 
 /-- The list entering the rerank layers is ordered by the documented combined score, descending,
 ties by id ascending; and the score attached to each hit *is* the documented combination
@@ -479,43 +480,52 @@ open Clem.Py
 section
 variable {α : Type} [Num α]
 
-/-- Retrieval completeness (distinct episode ids, `k ≥ 1`): with fewer than `k` hits, every
-episode that is visible under the scope, has a vector, meets the threshold and the rule of a
-configured tier is in `retrieved` — for every rerank configuration. -/
+/-- Retrieval completeness (`k ≥ 1`; episode ids MAY repeat in the memory — `_rank_by_cosine` keeps
+one entry per id before the `k` cut): with fewer than `k` hits, every episode that is visible under
+the scope, has a vector, meets the threshold and the rule of a configured tier is represented in
+`retrieved` by a hit with its id — for every rerank configuration. -/
 theorem C11_complete (c : Cfg α) (tiers : List Nat) (eps : List (Ep α)) (h : HCfg α)
+    (q : QCfg α) (t2k : Option Int) (cap : Int) (graphs : List (List GNode)) (hk : 1 ≤ c.k)
+    (hl : ((t2 c tiers eps h q t2k cap graphs).retrieved.length : Int) < c.k) :
+    ∀ e ∈ eps, qualifies c tiers eps e = true →
+      ∃ r ∈ (t2 c tiers eps h q t2k cap graphs).retrieved, r.id = e.id := by
+  intro e he hq
+  have hp := C11_t2_retrieved_perm c tiers eps h q t2k cap graphs
+  have hlen : ((retrieveCore c tiers eps).1.length : Int) < c.k := by
+    have := hp.length_eq
+    rw [List.length_map] at this
+    omega
+  obtain ⟨r, hr, hid⟩ := retrieveCore_complete c tiers eps hk hlen e he hq
+  exact ⟨r, hp.mem_iff.2 hr, hid⟩
+
+/-- … and with distinct episode ids the qualifying episode itself is returned. -/
+theorem C11_complete_unique (c : Cfg α) (tiers : List Nat) (eps : List (Ep α)) (h : HCfg α)
     (q : QCfg α) (t2k : Option Int) (cap : Int) (graphs : List (List GNode)) (hk : 1 ≤ c.k)
     (hn : (eps.map (·.id)).Nodup)
     (hl : ((t2 c tiers eps h q t2k cap graphs).retrieved.length : Int) < c.k) :
     ∀ e ∈ eps, qualifies c tiers eps e = true → e ∈ (t2 c tiers eps h q t2k cap graphs).retrieved := by
   intro e he hq
-  have hp := C11_t2_retrieved_perm c tiers eps h q t2k cap graphs
-  rw [hp.mem_iff]
-  apply retrieveCore_complete c tiers eps hk hn _ e he hq
-  have := hp.length_eq
-  rw [List.length_map] at this
-  omega
+  obtain ⟨r, hr, hid⟩ := C11_complete c tiers eps h q t2k cap graphs hk hl e he hq
+  have hre : r ∈ eps := ((C11_t2_retrieved c tiers eps h q t2k cap graphs hk).2.2 r hr).1
+  have : r = e := List.inj_on_of_nodup_map hn hre he hid
+  rw [← this]; exact hr
 
 theorem C11_mon_complete (c : Cfg α) (tiers : List Nat) (eps : List (Ep α)) (h : HCfg α)
     (q : QCfg α) (t2k : Option Int) (cap : Int) (graphs : List (List GNode)) (hk : 1 ≤ c.k) :
     monComplete c tiers eps ((t2 c tiers eps h q t2k cap graphs).retrieved.map Ep.toHit) = true := by
   unfold monComplete
-  by_cases hn : (eps.map (·.id)).Nodup
-  · by_cases hl : ((t2 c tiers eps h q t2k cap graphs).retrieved.length : Int) < c.k
-    · have hc := C11_complete c tiers eps h q t2k cap graphs hk hn hl
-      simp only [Bool.or_eq_true, List.all_eq_true, Bool.not_eq_true', List.any_map, List.any_eq_true]
-      right
-      intro e he
-      by_cases hq : qualifies c tiers eps e = true
-      · right
-        exact ⟨e, hc e he hq, by simp [Ep.toHit]⟩
-      · left; simpa using hq
-    · simp only [Bool.or_eq_true, decide_eq_true_eq, List.length_map]
-      left; right; omega
-  · have : nodupB (eps.map (·.id)) = false := by
-      cases hb : nodupB (eps.map (·.id))
-      · rfl
-      · exact absurd ((nodupB_iff _).1 hb) hn
-    simp [this]
+  by_cases hl : ((t2 c tiers eps h q t2k cap graphs).retrieved.length : Int) < c.k
+  · have hc := C11_complete c tiers eps h q t2k cap graphs hk hl
+    simp only [Bool.or_eq_true, List.all_eq_true, Bool.not_eq_true', List.any_map, List.any_eq_true]
+    right
+    intro e he
+    by_cases hq : qualifies c tiers eps e = true
+    · right
+      obtain ⟨r, hr, hid⟩ := hc e he hq
+      exact ⟨r, hr, by simp [Ep.toHit, hid]⟩
+    · left; simpa using hq
+  · simp only [Bool.or_eq_true, decide_eq_true_eq, List.length_map]
+    left; omega
 
 /-- Residual completeness: fewer than `max cap 0` nudges ⇒ every labelled node of an active graph
 whose lower-cased label occurs in a used hit is represented (same lower-cased label). -/
@@ -539,16 +549,23 @@ namespace Clem.T2
 
 open Clem.Py
 
-/-- Each tier returns the best `k` of what qualifies for it under `(−cosine, id)`: a qualifying
-episode is either returned, or `k` episodes sorting no later were returned instead. -/
+/-- Each tier returns the best `k` distinct ids of what qualifies for it under `(−cosine, id)`: a
+qualifying episode is represented by a returned copy of its id that sorts no later (itself when ids
+are distinct), or `k` episodes sorting no later were returned instead.  No unique-id hypothesis. -/
 theorem C11_tier_topk {α : Type} [Num α] [LinearOrder α] [NumOrd α] (c : Cfg α) (t : Nat)
     (eps : List (Ep α)) (e : Ep α) (hk : 0 ≤ c.k) (ht : t ≤ 2) (he : e ∈ eps)
     (hq : qualifies c [t] eps e = true) :
-    e ∈ searchTier c t eps ∨ (((searchTier c t eps).length : Int) = c.k
-      ∧ ∀ h ∈ searchTier c t eps, keyLe (rankKey h) (rankKey e) = true) := by
+    (∃ h ∈ searchTier c t eps, h.id = e.id ∧ keyLe (rankKey h) (rankKey e) = true)
+      ∨ (((searchTier c t eps).length : Int) = c.k
+        ∧ ∀ h ∈ searchTier c t eps, keyLe (rankKey h) (rankKey e) = true) := by
   simp only [qualifies, List.any_cons, List.any_nil, Bool.or_false, Bool.and_eq_true,
     decide_eq_true_eq] at hq
   exact searchTier_topk hk ht he hq.1.1 hq.1.2 hq.2.2
+
+/-- A tier's answer never repeats an episode id, whatever the memory holds (re-added ids do not use
+up several of the `k` slots). -/
+theorem C11_tier_ids_nodup {α : Type} [Num α] (c : Cfg α) (t : Nat) (eps : List (Ep α)) :
+    ((searchTier c t eps).map (·.id)).Nodup := searchTier_ids_nodup c t eps
 
 end Clem.T2
 
@@ -632,5 +649,14 @@ theorem C11_mon_tier_par {α : Type} [Num α] (c : Cfg α) (tiers : List Nat) (e
   split
   · rfl
   · exact hto
+
+end Clem.T2
+
+namespace Clem.T2
+
+/-- The one-entry-per-id step of `_rank_by_cosine` in this model is the function C09's fan-out model
+uses (`Clem.ParT2.dedupIds`), seen through `(id, score)`. -/
+theorem C11_dedup_same_as_fanout {α : Type} (l : List (Ep α)) :
+    (dedupIds l).map Ep.toParHit = Clem.ParT2.dedupIds (l.map Ep.toParHit) := dedupIds_eq_par l
 
 end Clem.T2
